@@ -128,7 +128,7 @@ def _filtered_ok(facts, value):
 
 
 def order_time_guards(ctx):
-    b = ctx.fbody(name="update_from_order_snapshot", self_adt=ORDERS, trait=OM)
+    b = ctx.fibody(name="update_from_order_snapshot", self_adt=ORDERS, trait=OM)
     n = 0
     for bi, si, path, value, s in b.stores():
         if not (atoms.ends_with(path, "state") and _tracked(path)):
@@ -274,7 +274,7 @@ def summary_forwarders(ctx):
     G = "barter::statistic::summary::TradingSummaryGenerator"
     for fn, want in (("update_from_balance", "TearSheetAssetGenerator::update_from_balance(AssetTearSheetManager::asset_mut(self, balance.0.asset), balance)"),
                      ("update_from_position", "TearSheetGenerator::update_from_position(InstrumentTearSheetManager::instrument_mut(self, position.instrument), position)")):
-        fb = ctx.fbody(name=fn, self_adt=G, trait="")
+        fb = ctx.fibody(name=fn, self_adt=G, trait="")
         fw = [(bi, render(tm)) for bi, t, tm in fb.real_calls() if mir.short(tm[1]).endswith("::" + fn)]
         ctx.check("TradingSummaryGenerator::" + fn, len(fw) == 1 and fw[0][1] == want and fb.guard(fw[0][0]) == frozenset([frozenset()]),
                   "every snapshot / closed position is forwarded, unconditionally, to the tear sheet keyed by its own asset / instrument",
